@@ -16,14 +16,17 @@ from metapype.model.normalize import normalize
 LEVEL = "exploration"
 ASSUMPTIONS = [
     "text: strings up to length 8 (thorough 10) over {a,b,space,tab,LF,NBSP} and up to 3 over a wider alphabet",
-    "XML: up to 4 elements, attributes unprefixed or xsi-prefixed, literal NBSP only (no character references), no comments/PIs",
+    "XML: up to 4 elements, attributes unprefixed or xsi-prefixed, literal NBSP only (no numeric character references; the five "
+    "predefined entities occur), no comments/PIs",
 ]
 
 ALPHA = ["a", "b", " ", "\t", "\n", "\xa0"]
 WIDE = ALPHA + ["\r", "\u2003", "\u200b", "\u00e9"]
 PROTECTED = ("markup", "literalLayout", "objectName", "attributeName", "para")
 NAMES = ["r", "q", "para", "literalLayout", "markup", "objectName", "attributeName"]
-VALUES = ["x", " x ", "x  y", "x\n\ty", "\xa0x\xa0", "x\xa0\xa0y", "   ", "\n  ", "\xa0", " \xa0\n", "a b\tc\n d"]
+VALUES = ["x", " x ", "x  y", "x\n\ty", "\xa0x\xa0", "x\xa0\xa0y", "   ", "\n  ", "\xa0", " \xa0\n", "a b\tc\n d",
+          # source text with escaped markup characters (values are written into the document verbatim)
+          "a &lt; b  &amp; c", "&amp;lt;b&amp;gt;", "&gt;\xa0&quot;\xa0\xa0&apos;"]
 XSI = "http://www.w3.org/2001/XMLSchema-instance"
 
 
